@@ -90,6 +90,24 @@ def memo_keys(chk, repo, P="C06"):
                     table = node.func.value.id
                 if key is None:
                     continue
+                # memoisation = the same function also looks the table up
+                # (a registry that is only written is something else)
+                looked_up = any(
+                    (isinstance(m, ast.Subscript) and isinstance(
+                        m.ctx, ast.Load) and isinstance(m.value, ast.Name)
+                     and m.value.id == table)
+                    or (isinstance(m, ast.Compare) and any(
+                        isinstance(o, (ast.In, ast.NotIn)) for o in m.ops)
+                        and any(isinstance(c, ast.Name) and c.id == table
+                                for c in m.comparators))
+                    or (isinstance(m, ast.Call) and isinstance(
+                        m.func, ast.Attribute) and m.func.attr in (
+                            "get", "setdefault") and isinstance(
+                            m.func.value, ast.Name)
+                        and m.func.value.id == table)
+                    for m in ast.walk(fn))
+                if not looked_up:
+                    continue
                 n += 1
                 key = subst(key, env)
                 attrs = {}
